@@ -34,6 +34,7 @@ func (u *writeUnit) cycle(ctx *risc.Context, before int32) {
 	}
 	if execution.Execution.RegisterChange {
 		ctx.WriteRegister(execution.Execution)
+		ctx.VerifEvent(risc.VerifKindRegWB, execution.SequenceID, int32(execution.Execution.Register), execution.Execution.RegisterValue)
 		ctx.DeletePendingRegisters(execution.ReadRegisters, execution.WriteRegisters)
 		log.Infoi(ctx, "WU", execution.InstructionType, -1, "write to register")
 	} else if execution.Execution.MemoryChange {
@@ -48,6 +49,7 @@ func (u *writeUnit) cycle(ctx *risc.Context, before int32) {
 			}
 			u.coroutine = nil
 			ctx.WriteMemory(u.memoryWrite.Execution)
+			ctx.VerifStore(u.memoryWrite.SequenceID, u.memoryWrite.Execution)
 			ctx.DeletePendingRegisters(u.memoryWrite.ReadRegisters, u.memoryWrite.WriteRegisters)
 			log.Infoi(ctx, "WU", u.memoryWrite.InstructionType, -1, "write to memory")
 		}
